@@ -710,3 +710,127 @@ Proof.
   - intros C. apply map_eq_nil in C. revert C. apply ne_toks_nonempty.
   - apply Forall_forall. intros t Ht. apply in_map_iff in Ht as (t0 & <- & _). apply print_tok_nocomma.
 Qed.
+
+(* ------------------------------------------------------------------ *)
+(* 8. IsPtr is a function of Value in everything parse_args produces   *)
+
+(* every Arg reachable from [a] (itself and, recursively, its fields) has
+   IsPtr = is_ptr_value Value.  This covers the "_" placeholder and the
+   aggregates as well: their value is 0 and is_ptr_value 0 = false. *)
+Fixpoint arg_isptr_ok (a : Arg) : bool :=
+  match a with
+  | MkArg _ _ v p _ _ fv _ _ => Bool.eqb p (is_ptr_value v) && forallb arg_isptr_ok fv
+  end.
+Definition args_isptr_ok (l : list Arg) : Prop := forallb arg_isptr_ok l = true.
+
+(* the same as a statement about reachable Args *)
+Inductive sub_arg : Arg -> Arg -> Prop :=
+| sub_refl : forall a, sub_arg a a
+| sub_field : forall a b g n v p t i fv fp fe,
+    In b fv -> sub_arg a b -> sub_arg a (MkArg g n v p t i fv fp fe).
+
+Lemma arg_isptr_ok_sub : forall a b, sub_arg a b -> arg_isptr_ok b = true ->
+  IsPtr a = is_ptr_value (Value a).
+Proof.
+  intros a b H. induction H as [a|a b g n v p t i fv fp fe Hin _ IH]; intros Hok.
+  - destruct a as [g n v p t i fv fp fe]. cbn [arg_isptr_ok] in Hok.
+    apply andb_true_iff in Hok as [Hok _]. apply eqb_prop in Hok. exact Hok.
+  - cbn [arg_isptr_ok] in Hok. apply andb_true_iff in Hok as [_ Hok].
+    apply IH. rewrite forallb_forall in Hok. apply Hok. exact Hin.
+Qed.
+
+Definition frames_ok (st : list frame) : Prop :=
+  Forall (fun f => args_isptr_ok (fvals f)) st.
+
+Lemma frames_ok_new : forall st, frames_ok st -> frames_ok (mkFrame [] false :: st).
+Proof. intros st H. constructor; [reflexivity|exact H]. Qed.
+
+Lemma pa_open_ok : forall n st st', frames_ok st -> pa_open n st = Some st' -> frames_ok st'.
+Proof.
+  induction n as [|n IH]; intros st st' Hok H; cbn [pa_open] in H.
+  - injection H as <-. exact Hok.
+  - destruct (Nat.leb max_depth (List.length (mkFrame [] false :: st) - 1)); [discriminate|].
+    apply (IH _ _ (frames_ok_new _ Hok) H).
+Qed.
+
+Lemma push_val_ok : forall a st, arg_isptr_ok a = true -> frames_ok st -> frames_ok (push_val a st).
+Proof.
+  intros a [|f st] Ha Hok; [exact Hok|]. inversion Hok as [|f0 st0 Hf Hst]; subst.
+  cbn [push_val]. constructor; [|exact Hst].
+  unfold args_isptr_ok in *. cbn [fvals]. rewrite forallb_app, Hf. cbn [forallb]. rewrite Ha. reflexivity.
+Qed.
+
+Lemma set_elided_ok : forall st, frames_ok st -> frames_ok (set_elided st).
+Proof.
+  intros [|f st] Hok; [exact Hok|]. inversion Hok as [|f0 st0 Hf Hst]; subst.
+  cbn [set_elided]. constructor; [exact Hf|exact Hst].
+Qed.
+
+Lemma pa_close_ok : forall n st st', frames_ok st -> pa_close n st = Some st' -> frames_ok st'.
+Proof.
+  induction n as [|n IH]; intros st st' Hok H; cbn [pa_close] in H.
+  - injection H as <-. exact Hok.
+  - destruct st as [|f [|g st2]]; try discriminate.
+    inversion Hok as [|f0 st0 Hf Hst]; subst.
+    eapply IH; [|exact H]. apply push_val_ok; [exact Hf|exact Hst].
+Qed.
+
+Lemma parse_item_ok : forall a st1 st2, frames_ok st1 -> parse_item a st1 = Some st2 -> frames_ok st2.
+Proof.
+  intros a st1 st2 Hok H. unfold parse_item in H. destruct a as [|a0 a'].
+  - injection H as <-. exact Hok.
+  - destruct (beq (a0 :: a') (s2b "...")).
+    + injection H as <-. apply set_elided_ok. exact Hok.
+    + destruct (beq (a0 :: a') (s2b "_")).
+      * injection H as <-. apply push_val_ok; [reflexivity|exact Hok].
+      * cbv zeta in H.
+        match type of H with
+        | match ?X with _ => _ end = _ => destruct X as [v|]; [|discriminate]
+        end.
+        injection H as <-. apply push_val_ok; [|exact Hok].
+        cbn. rewrite eqb_reflx. reflexivity.
+Qed.
+
+Lemma pa_piece_ok : forall st piece st', frames_ok st -> pa_piece st piece = inl st' -> frames_ok st'.
+Proof.
+  intros st piece st' Hok H. rewrite pa_piece_eq in H.
+  destruct (trim_curly piece) as [[opened a] closed].
+  destruct (pa_open opened st) as [st1|] eqn:H1; [|discriminate].
+  destruct (parse_item a st1) as [st2|] eqn:H2; [|discriminate].
+  destruct (pa_close closed st2) as [st3|] eqn:H3; [|discriminate].
+  injection H as <-.
+  apply (pa_close_ok _ _ _ (parse_item_ok _ _ _ (pa_open_ok _ _ _ Hok H1) H2) H3).
+Qed.
+
+Lemma pa_loop_ok : forall pieces st st', frames_ok st -> pa_loop st pieces = inl st' -> frames_ok st'.
+Proof.
+  induction pieces as [|p ps IH]; intros st st' Hok H; cbn [pa_loop] in H.
+  - injection H as <-. exact Hok.
+  - destruct (pa_piece st p) as [st1|e] eqn:Hp; [|discriminate].
+    apply (IH _ _ (pa_piece_ok _ _ _ Hok Hp) H).
+Qed.
+
+Theorem parse_args_isptr_value_only : forall line a,
+  parse_args line = inl a -> args_isptr_ok (Values a).
+Proof.
+  intros line a H. unfold parse_args in H.
+  destruct (pa_loop [mkFrame [] false] (split line (s2b ", "))) as [st|e] eqn:Hl; [|discriminate].
+  assert (Hok : frames_ok st).
+  { apply (pa_loop_ok _ _ _ (frames_ok_new [] (Forall_nil _)) Hl). }
+  destruct st as [|f [|g st]]; try discriminate.
+  injection H as <-. inversion Hok as [|f0 st0 Hf _]; subst. exact Hf.
+Qed.
+
+(* for every Arg reachable in the result *)
+Corollary parse_args_isptr_reachable : forall line a top x,
+  parse_args line = inl a -> In top (Values a) -> sub_arg x top ->
+  IsPtr x = is_ptr_value (Value x).
+Proof.
+  intros line a top x H Hin Hsub. apply (arg_isptr_ok_sub x top Hsub).
+  pose proof (parse_args_isptr_value_only line a H) as Hok. unfold args_isptr_ok in Hok.
+  rewrite forallb_forall in Hok. apply Hok. exact Hin.
+Qed.
+
+Print Assumptions parse_args_print_args.
+Print Assumptions parse_args_isptr_value_only.
+Print Assumptions parse_args_isptr_reachable.
